@@ -191,7 +191,7 @@ def bl_schedules(case, ctx):
                     else (keys[0][0], min(keys[-1][1], nnz))
                 keysets.append({"keys": [list(k) for k in keys], "lo": lo, "hi": hi})
             runs.append({"chunk": chunk, "map": kind, "nan": [bool(x) for x in np.isnan(bias)],
-                         "q": [-1 if np.isnan(x) else int(round(float(x) * (1 << 20))) for x in bias],
+                         "q": [-1 if np.isnan(x) else min(1 << 30, int(round(float(x) * (1 << 20)))) for x in bias],   # capped: TLC integers are 32-bit
                          "converged": [bool(x) for x in np.atleast_1d(stats["converged"])], "keysets": keysets})
     finally:
         if pool is not None:
